@@ -932,9 +932,728 @@ theorem identity_set (s : Schema) (t : ListT) (hk : t.keys.isEmpty = true) (w : 
   · next hs => cases h; exact ⟨hs, rfl⟩
   · cases h
 
-/-- an item merged with nothing keeps its identity -/
-theorem merge_identity_left (s : Schema) (t : ListT) (fuel : Nat) (w o : Value) (pw : PE)
-    (hid : Conf.identity s t w = some pw) (hks : itemKeysScalar t.keys w = true)
+theorem identity_of_listItemToPE (s : Schema) (t : ListT) (v : Value) (pe : PE) (hrel : t.rel = "associative")
+    (h : listItemToPE s t v = .ok pe) : Conf.identity s t v = some pe := by
+  rw [listItemToPE_eq s t v hrel] at h
+  split at h
+  · next id hid => cases h; exact hid
+  · cases h
+
+/-! ### canonical values are stable under merging -/
+
+theorem canon_of_isScalar (v : Value) (h : v.isScalar = true) : canon v = true := by
+  cases v <;> simp_all [Value.isScalar, canon]
+
+theorem canonList_asList (v : Value) (h : canon v = true) : canonList ((asList (some v)).getD []) = true := by
+  cases v <;> simp_all [asList, canon, canonList]
+
+theorem canon_asMap (v : Value) (h : canon v = true) :
+    keysAsc ((asMap (some v)).getD []) = true ∧ canonFields ((asMap (some v)).getD []) = true := by
+  cases v <;> simp_all [asMap, canon, canonFields, keysAsc]
+
+theorem asList_eq_of_nonempty (v : Value) (h : emptyOrAbsent (asList (some v)) = false) :
+    v = .list ((asList (some v)).getD []) := by
+  cases v <;> simp_all [asList, emptyOrAbsent]
+
+theorem asMap_eq_of_nonempty (v : Value) (h : emptyOrAbsent (asMap (some v)) = false) :
+    v = .map ((asMap (some v)).getD []) := by
+  cases v <;> simp_all [asMap, emptyOrAbsent]
+
+theorem lookupField_of_mem_asc {m : List (String × Value)} (hasc : keysAsc m = true) {k : String} {v : Value}
+    (h : (k, v) ∈ m) : lookupField k m = some v := by
+  have hpw := keysAsc_pairwise m hasc
+  obtain ⟨p, rest, rfl⟩ := List.append_of_mem h
+  apply lookupField_append_of_lt
+  intro x hx
+  rw [List.pairwise_append] at hpw
+  exact hpw.2.2 x hx (k, v) List.mem_cons_self
+
+/-- the value of a successful merge (`null` otherwise) -/
+def resVal : Res (Option Value) → Value
+  | .ok (some v) => v
+  | _ => .null
+
+/-- merging a canonical value with nothing gives the value back -/
+theorem merge_canon_left (s : Schema) : ∀ (fuel : Nat) (w : Value) (tr : TypeRef) (o : Option Value),
+    canon w = true → mergeNode s fuel (some w) none tr = .ok o → o = some w := by
+  intro fuel
+  induction fuel with
+  | zero => intro w tr o _ h; cases h
+  | succ n ih =>
+    intro w tr o hc h
+    obtain ⟨n', a, hf, hres, hh⟩ := mergeNode_none_right s _ w tr o h
+    cases hf
+    cases hk : atomKind (deduceAtom a (some w)) with
+    | invalid => unfold mergeHandle at hh; rw [hk] at hh; cases hh
+    | scalar t => exact mergeHandle_scalar s _ _ _ _ t hk o hh
+    | list t =>
+      rcases mergeHandle_list s _ _ _ _ t hk o hh with h1 | ⟨rpes, obsR, lpes, obsL, res, hir, hil, hloop, hcnd, hna, h2⟩
+      · exact h1
+      · have hsome := mergeNode_isSome s _ _ _ _ _ h
+        rcases h2 with ⟨_, ho⟩ | ⟨_, ho⟩
+        · subst ho; cases hsome
+        · subst ho
+          simp only [asList, Option.getD_none, indexPEs, List.reverse_nil, Res.ok.injEq, Prod.mk.injEq] at hir
+          obtain ⟨rfl, rfl⟩ := hir
+          have hne : emptyOrAbsent (asList (some w)) = false := by
+            simpa [emptyOrAbsent, asList] using hcnd
+          have hw := asList_eq_of_nonempty w hne
+          generalize hll : (asList (some w)).getD [] = ll at hil hw
+          obtain ⟨newl, el, hl2, hl3, _, hl5⟩ := mn_indexPEs_spec s t true ll [] [] lpes obsL hil
+          simp only [List.reverse_nil, List.nil_append] at el
+          subst el
+          have hcl : canonList ll = true := by rw [← hll]; exact canonList_asList w hc
+          obtain ⟨_, _, _, m4⟩ := mergeLoop_spec _ _ _ _ _ _ _ _ _ _ hloop
+          have hitem : ∀ p ∈ lpes, mergeNode s n (some p.2) none t.elementType = .ok (some p.2) := by
+            intro p hp
+            obtain ⟨o', ho', _⟩ := m4 rfl rfl p hp
+            have hpl : p.2 ∈ ll := by rw [← hl2]; exact List.mem_map_of_mem hp
+            rw [ho', ih p.2 _ o' (canonList_mem ll hcl _ hpl) ho']
+          simp only [List.map_nil, List.filter_nil, List.length_nil, Nat.add_zero] at hloop
+          rw [mergeLoop_left_only _ obsL lpes lpes.length [] [] hitem (Nat.le_refl _)] at hloop
+          simp only [List.reverse_nil, List.nil_append, Res.ok.injEq] at hloop
+          rw [← hloop, hl2, ← hw]
+    | map t =>
+      rcases mergeHandle_map s _ _ _ _ t hk o hh with h1 | ⟨outm, hf, hcnd, hna, h2⟩
+      · exact h1
+      · have hsome := mergeNode_isSome s _ _ _ _ _ h
+        rcases h2 with ⟨_, ho⟩ | ⟨_, ho⟩
+        · subst ho; cases hsome
+        · subst ho
+          have hne : emptyOrAbsent (asMap (some w)) = false := by
+            simpa [emptyOrAbsent, asMap] using hcnd
+          have hw := asMap_eq_of_nonempty w hne
+          obtain ⟨hasc, hcf⟩ := canon_asMap w hc
+          generalize hlf : (asMap (some w)).getD [] = lf at hf hw hasc hcf
+          simp only [asMap, Option.getD_none] at hf
+          have hz : zipKeys lf [] = lf.map (·.1) := by simp [zipKeys]
+          rw [hz] at hf
+          obtain ⟨_, _, h3⟩ := foldl_mergeMapStep_spec _ t _ _ _ _ _ hf
+          have hpw := keysAsc_pairwise lf hasc
+          have hcopy := mergeMapStep_foldl_copy (mergeNode s n) t lf lf [] (by
+            intro p k v rest hm
+            have hmem : (k, v) ∈ lf := by rw [hm]; simp
+            obtain ⟨o', ho', _⟩ := h3 k (List.mem_map.2 ⟨(k, v), hmem, rfl⟩)
+            rw [lookupField_of_mem_asc hasc hmem] at ho' ⊢
+            rw [ho', ih v _ o' (canonFields_mem lf hcf _ hmem) ho']) hpw lf [] rfl
+          rw [hcopy] at hf
+          cases hf
+          rw [← hw]
+
+theorem mergeNode_none_left (s : Schema) (fuel : Nat) (r : Value) (tr : TypeRef) (a : Atom)
+    (hres : s.resolve tr = some a) :
+    mergeNode s (fuel + 1) none (some r) tr = mergeHandle s (mergeNode s fuel) none (some r) (deduceAtom a (some r)) := by
+  rw [mergeNode_succ]
+  simp [hres]
+
+/-- merging nothing with a canonical value gives the value back -/
+theorem merge_canon_right (s : Schema) : ∀ (fuel : Nat) (v : Value) (tr : TypeRef) (o : Option Value),
+    canon v = true → mergeNode s fuel none (some v) tr = .ok o → o = some v := by
+  intro fuel
+  induction fuel with
+  | zero => intro w tr o _ h; cases h
+  | succ n ih =>
+    intro v tr o hc h
+    obtain ⟨n', a, hf, hres, hh⟩ := mergeNode_some_right s _ none v tr o h
+    cases hf
+    cases hk : atomKind (deduceAtom a (some v)) with
+    | invalid => unfold mergeHandle at hh; rw [hk] at hh; cases hh
+    | scalar t => exact mergeHandle_scalar s _ _ _ _ t hk o hh
+    | list t =>
+      rcases mergeHandle_list s _ _ _ _ t hk o hh with h1 | ⟨rpes, obsR, lpes, obsL, res, hir, hil, hloop, hcnd, hna, h2⟩
+      · exact h1
+      · have hsome := mergeNode_isSome s _ _ _ _ _ h
+        rcases h2 with ⟨_, ho⟩ | ⟨_, ho⟩
+        · subst ho; cases hsome
+        · subst ho
+          simp only [asList, Option.getD_none, indexPEs, List.reverse_nil, Res.ok.injEq, Prod.mk.injEq] at hil
+          obtain ⟨rfl, rfl⟩ := hil
+          have hne : emptyOrAbsent (asList (some v)) = false := by
+            simpa [emptyOrAbsent, asList] using hcnd
+          have hw := asList_eq_of_nonempty v hne
+          generalize hll : (asList (some v)).getD [] = rl at hir hw
+          obtain ⟨newr, er, hr2, hr3, hr4, hr5⟩ := mn_indexPEs_spec s t false rl [] [] rpes obsR hir
+          simp only [List.reverse_nil, List.nil_append] at er
+          subst er
+          obtain ⟨hr4a, _⟩ := hr4 rfl
+          have hcl : canonList rl = true := by rw [← hll]; exact canonList_asList v hc
+          obtain ⟨_, _, m3, _⟩ := mergeLoop_spec _ _ _ _ _ _ _ _ _ _ hloop
+          have hitem : ∀ p ∈ rpes, mergeNode s n none (pemGet p.1 obsR) t.elementType = .ok (some p.2) := by
+            intro p hp
+            obtain ⟨pe, o', he, ho', _⟩ := m3 p.1 (List.mem_map_of_mem hp)
+            have hpl : p.2 ∈ rl := by rw [← hr2]; exact List.mem_map_of_mem hp
+            simp only [pemGet] at ho'
+            rw [pemGet_congr he] at ho'
+            rw [ho']
+            rw [hr4a p hp] at ho'
+            rw [ih p.2 _ o' (canonList_mem rl hcl _ hpl) ho']
+          simp only [pemGet, Option.isSome_none, filter_const_false, List.length_nil, Nat.zero_add,
+            List.length_map, Bool.false_eq_true] at hloop
+          rw [mergeLoop_right_only _ obsR rpes rpes.length [] [] hitem (Nat.le_refl _)] at hloop
+          simp only [List.reverse_nil, List.nil_append, Res.ok.injEq] at hloop
+          rw [← hloop, hr2, ← hw]
+    | map t =>
+      rcases mergeHandle_map s _ _ _ _ t hk o hh with h1 | ⟨outm, hf, hcnd, hna, h2⟩
+      · exact h1
+      · have hsome := mergeNode_isSome s _ _ _ _ _ h
+        rcases h2 with ⟨_, ho⟩ | ⟨_, ho⟩
+        · subst ho; cases hsome
+        · subst ho
+          have hne : emptyOrAbsent (asMap (some v)) = false := by
+            simpa [emptyOrAbsent, asMap] using hcnd
+          have hw := asMap_eq_of_nonempty v hne
+          obtain ⟨hasc, hcf⟩ := canon_asMap v hc
+          generalize hlf : (asMap (some v)).getD [] = rf at hf hw hasc hcf
+          simp only [asMap, Option.getD_none] at hf
+          have hz : zipKeys [] rf = rf.map (·.1) := by simp [zipKeys, lookupField, filter_const_true]
+          rw [hz] at hf
+          obtain ⟨_, _, h3⟩ := foldl_mergeMapStep_spec _ t _ _ _ _ _ hf
+          have hpw := keysAsc_pairwise rf hasc
+          have hcopy := mergeMapStep_foldl_copy (mergeNode s n) t rf [] rf (by
+            intro p k w rest hm
+            have hmem : (k, w) ∈ rf := by rw [hm]; simp
+            obtain ⟨o', ho', _⟩ := h3 k (List.mem_map.2 ⟨(k, w), hmem, rfl⟩)
+            rw [lookupField_of_mem_asc hasc hmem] at ho' ⊢
+            rw [ho', ih w _ o' (canonFields_mem rf hcf _ hmem) ho']) hpw rf [] rfl
+          rw [hcopy] at hf
+          cases hf
+          rw [← hw]
+
+theorem mergeHandle_null_left (s : Schema) (rec : MergeRec) (r : Value) (atom : Atom) :
+    mergeHandle s rec (some .null) (some r) atom = mergeHandle s rec none (some r) atom := by
+  unfold mergeHandle
+  cases atomKind atom <;> rfl
+
+/-- the interleaving loop on two lists whose elements are equal position by position: every step merges
+the two heads -/
+theorem mergeLoop_aligned {α : Type} (item : PE → Option Value → Option Value → Res (Option Value))
+    (obsL obsR : List (PE × Value)) (pl pr : α → PE) (vl : α → Value)
+    (hsome : ∀ pe lc rc o, item pe lc rc = .ok o → o.isSome = true) :
+    ∀ (Z : List α) (steps : Nat) (shared merged : List PE) (out res : List Value),
+      (∀ z ∈ Z, PE.equals (pl z) (pr z) = true) → Z.length ≤ steps →
+      mergeLoop item obsL obsR steps (Z.map fun z => (pl z, vl z)) (Z.map pr) shared merged out = .ok res →
+      res = out.reverse ++ Z.map (fun z => resVal (item (pl z) (pemGet (pl z) obsL) (pemGet (pl z) obsR))) ∧
+        ∀ z ∈ Z, ∃ v, item (pl z) (pemGet (pl z) obsL) (pemGet (pl z) obsR) = .ok (some v) := by
+  intro Z
+  induction Z with
+  | nil =>
+    intro steps shared merged out res _ _ h
+    simp only [List.map_nil, mergeLoop_nil, Res.ok.injEq] at h
+    subst h
+    simp
+  | cons z Z ih =>
+    intro steps shared merged out res hz hsteps h
+    cases steps with
+    | zero => simp at hsteps
+    | succ k =>
+      simp only [List.map_cons] at h
+      rw [mergeLoop] at h
+      simp only [hz z List.mem_cons_self, if_true] at h
+      split at h
+      · next o ho =>
+        have hs := hsome _ _ _ _ ho
+        cases o with
+        | none => cases hs
+        | some v =>
+          obtain ⟨h1, h2⟩ := ih k _ _ _ res (fun z' hz' => hz z' (List.mem_cons_of_mem _ hz')) (by simpa using hsteps) h
+          refine ⟨?_, ?_⟩
+          · rw [h1]; simp [ho, resVal]
+          · intro z' hz'
+            rcases List.mem_cons.1 hz' with rfl | hz'
+            · exact ⟨v, ho⟩
+            · exact h2 z' hz'
+      · cases h
+      · cases h
+
+
+/-! ### values equal position by position -/
+
+theorem equalsList_unzip : ∀ (a b : List Value), Value.equalsList a b = true →
+    ∃ Z : List (Value × Value), a = Z.map (·.1) ∧ b = Z.map (·.2) ∧ ∀ z ∈ Z, Value.equals z.1 z.2 = true
+  | [], [], _ => ⟨[], rfl, rfl, by simp⟩
+  | [], _ :: _, h => by simp [Value.equalsList] at h
+  | _ :: _, [], h => by simp [Value.equalsList] at h
+  | x :: xs, y :: ys, h => by
+    simp only [Value.equalsList, Bool.and_eq_true] at h
+    obtain ⟨Z, h1, h2, h3⟩ := equalsList_unzip xs ys h.2
+    exact ⟨(x, y) :: Z, by simp [h1], by simp [h2], by
+      intro z hz
+      rcases List.mem_cons.1 hz with rfl | hz
+      · exact h.1
+      · exact h3 z hz⟩
+
+theorem equalsList_map {α : Type} (f g : α → Value) : ∀ Z : List α,
+    (∀ z ∈ Z, Value.equals (f z) (g z) = true) → Value.equalsList (Z.map f) (Z.map g) = true
+  | [], _ => by simp [Value.equalsList]
+  | z :: Z, h => by
+    simp only [List.map_cons, Value.equalsList, Bool.and_eq_true]
+    exact ⟨h z List.mem_cons_self, equalsList_map f g Z (fun z' hz' => h z' (List.mem_cons_of_mem _ hz'))⟩
+
+theorem equalsFields_unzip : ∀ (a b : List (String × Value)), Value.equalsFields a b = true →
+    ∃ Z : List ZEntry, a = Z.map zl ∧ b = Z.map zr ∧ ∀ z ∈ Z, Value.equals z.2.1 z.2.2 = true
+  | [], [], _ => ⟨[], rfl, rfl, by simp⟩
+  | [], _ :: _, h => by simp [Value.equalsFields] at h
+  | _ :: _, [], h => by simp [Value.equalsFields] at h
+  | (k, v) :: xs, (k', v') :: ys, h => by
+    simp only [Value.equalsFields, Bool.and_eq_true, beq_iff_eq] at h
+    obtain ⟨⟨rfl, hv⟩, hr⟩ := h
+    obtain ⟨Z, h1, h2, h3⟩ := equalsFields_unzip xs ys hr
+    exact ⟨(k, v, v') :: Z, by simp [h1, zl], by simp [h2, zr], by
+      intro z hz
+      rcases List.mem_cons.1 hz with rfl | hz
+      · exact hv
+      · exact h3 z hz⟩
+
+theorem equalsFields_map {α : Type} (k : α → String) (f g : α → Value) : ∀ Z : List α,
+    (∀ z ∈ Z, Value.equals (f z) (g z) = true) →
+      Value.equalsFields (Z.map fun z => (k z, f z)) (Z.map fun z => (k z, g z)) = true
+  | [], _ => by simp [Value.equalsFields]
+  | z :: Z, h => by
+    simp only [List.map_cons, Value.equalsFields, Bool.and_eq_true, beq_self_eq_true, true_and]
+    exact ⟨h z List.mem_cons_self, equalsFields_map k f g Z (fun z' hz' => h z' (List.mem_cons_of_mem _ hz'))⟩
+
+/-- lookups in two entry lists with the same keys -/
+theorem lookupField_zip (k : String) : ∀ Z : List ZEntry,
+    (lookupField k (Z.map zl) = none ∧ lookupField k (Z.map zr) = none) ∨
+      ∃ z ∈ Z, z.1 = k ∧ lookupField k (Z.map zl) = some z.2.1 ∧ lookupField k (Z.map zr) = some z.2.2
+  | [] => .inl ⟨rfl, rfl⟩
+  | z :: Z => by
+    simp only [List.map_cons, zl, zr, lookupField]
+    by_cases hk : (k == z.1) = true
+    · simp only [hk, if_true]
+      exact .inr ⟨z, List.mem_cons_self, (beq_iff_eq.1 hk).symm, rfl, rfl⟩
+    · simp only [hk, if_false, Bool.false_eq_true]
+      rcases lookupField_zip k Z with h | ⟨z', hz', h⟩
+      · exact .inl h
+      · exact .inr ⟨z', List.mem_cons_of_mem _ hz', h⟩
+
+/-- equal items have equal identities -/
+theorem identity_equals_congr (s : Schema) (t : ListT) (a b : Value) (pa pb : PE)
+    (h : Value.equals a b = true) (ha : Conf.identity s t a = some pa) (hb : Conf.identity s t b = some pb) :
+    PE.equals pa pb = true := by
+  cases hk : t.keys.isEmpty with
+  | true =>
+    obtain ⟨_, rfl⟩ := identity_set s t hk a pa ha
+    obtain ⟨_, rfl⟩ := identity_set s t hk b pb hb
+    exact h
+  | false =>
+    obtain ⟨m1, rfl⟩ := identity_not_map s t hk a pa ha
+    obtain ⟨m2, rfl⟩ := identity_not_map s t hk b pb hb
+    simp only [Value.equals] at h
+    obtain ⟨Z, rfl, rfl, hZ⟩ := equalsFields_unzip m1 m2 h
+    rw [identity_keyed_equals s t _ _ hk pa pb ha hb]
+    intro k hkm
+    have h1 := ((identity_keyed_some s t _ hk pa).1 ha).1 k hkm
+    rcases lookupField_zip k Z with ⟨e1, e2⟩ | ⟨z, hz, rfl, e1, e2⟩
+    · obtain ⟨e, he⟩ := Option.isSome_iff_exists.1 h1
+      have hfst := keyVal_fst s t _ k e he
+      obtain ⟨ek, ev⟩ := e
+      simp only [] at hfst
+      subst hfst
+      refine ⟨ev, ev, he, ?_, Value.equals_refl _⟩
+      rw [← keyVal_of_lookup_none s t _ _ ek e1 e2]; exact he
+    · exact ⟨_, _, keyVal_of_lookup_some s t _ _ _ e1, keyVal_of_lookup_some s t _ _ _ e2, hZ z hz⟩
+
+
+theorem equalsList_asList (w r : Value) (h : Value.equals w r = true) :
+    Value.equalsList ((asList (some w)).getD []) ((asList (some r)).getD []) = true := by
+  cases w <;> cases r <;> simp_all [Value.equals, asList, Value.equalsList]
+
+theorem equalsFields_asMap (w r : Value) (h : Value.equals w r = true) :
+    Value.equalsFields ((asMap (some w)).getD []) ((asMap (some r)).getD []) = true := by
+  cases w <;> cases r <;> simp_all [Value.equals, asMap, Value.equalsFields]
+
+theorem emptyOrAbsent_of_getD_nil {α : Type} (x : Option (List α)) (h : x.getD [] = []) : emptyOrAbsent x = true := by
+  cases x <;> simp_all [emptyOrAbsent]
+
+/-- the path element `listItemToPE` gives (`invalid` when it fails) -/
+def peOf' (s : Schema) (t : ListT) (c : Value) : PE :=
+  match listItemToPE s t c with | .ok pe => pe | _ => .invalid
+
+theorem pes_eq_map (s : Schema) (t : ListT) : ∀ ps : List (PE × Value),
+    (∀ p ∈ ps, listItemToPE s t p.2 = .ok p.1) → ps = (ps.map (·.2)).map (fun c => (peOf' s t c, c))
+  | [], _ => rfl
+  | p :: ps, h => by
+    have hp := h p List.mem_cons_self
+    have ih := pes_eq_map s t ps (fun q hq => h q (List.mem_cons_of_mem _ hq))
+    simp only [List.map_cons]
+    rw [← ih]
+    simp [peOf', hp]
+
+theorem listItemToPE_rel (s : Schema) (t : ListT) (c : Value) (pe : PE) (h : listItemToPE s t c = .ok pe) :
+    t.rel = "associative" := by
+  unfold listItemToPE at h
+  split at h
+  · cases h
+  · next hne => simpa using hne
+
+theorem zipKeys_zip (Z : List ZEntry) : zipKeys (Z.map zl) (Z.map zr) = Z.map (·.1) := by
+  unfold zipKeys
+  have : (Z.map zr).filter (fun kv => (lookupField kv.1 (Z.map zl)).isNone) = [] := by
+    rw [List.filter_eq_nil_iff]
+    intro x hx
+    obtain ⟨z, hz, rfl⟩ := List.mem_map.1 hx
+    have := mn_lookupField_isSome_of_mem z.1 z.2.1 (Z.map zl) (List.mem_map.2 ⟨z, hz, rfl⟩)
+    simp only [zr]
+    cases hl : lookupField z.1 (Z.map zl) <;> simp_all
+  rw [this]
+  simp [List.map_map, zl]
+
+/-- what may stand on the left of a canonical value for the merge to give an equal value back: nothing, an
+explicit null, or an equal canonical value -/
+def StableLeft (lo : Option Value) (r : Value) : Prop :=
+  ∀ w, lo = some w → w = .null ∨ (canon w = true ∧ Value.equals w r = true)
+
+/-- merging a canonical value over an equal canonical value (or over nothing) gives an equal value -/
+theorem merge_canon_equal (s : Schema) : ∀ (fuel : Nat) (lo : Option Value) (r : Value) (tr : TypeRef)
+    (o : Option Value), StableLeft lo r → canon r = true → mergeNode s fuel lo (some r) tr = .ok o →
+    ∃ o', o = some o' ∧ Value.equals o' r = true := by
+  intro fuel
+  induction fuel with
+  | zero => intro lo r tr o _ _ h; cases h
+  | succ n ih =>
+    intro lo r tr o hlo hcr h
+    obtain ⟨n', a, hf, hres, hh⟩ := mergeNode_some_right s _ lo r tr o h
+    cases hf
+    have hnone : ∀ o, mergeNode s (n + 1) none (some r) tr = .ok o → ∃ o', o = some o' ∧ Value.equals o' r = true := by
+      intro o h
+      exact ⟨r, merge_canon_right s _ r tr o hcr h, Value.equals_refl _⟩
+    cases lo with
+    | none => exact hnone o h
+    | some w =>
+      rcases hlo w rfl with rfl | ⟨hcw, hwr⟩
+      · rw [mergeHandle_null_left, ← mergeNode_none_left s n r tr a hres] at hh
+        exact hnone o hh
+      · have hsome := mergeNode_isSome s _ _ _ _ _ h
+        cases hk : atomKind (deduceAtom a (some r)) with
+        | invalid => unfold mergeHandle at hh; rw [hk] at hh; cases hh
+        | scalar t => exact ⟨r, mergeHandle_scalar s _ _ _ _ t hk o hh, Value.equals_refl _⟩
+        | list t =>
+          rcases mergeHandle_list s _ _ _ _ t hk o hh with h1 | ⟨rpes, obsR, lpes, obsL, res, hir, hil, hloop, hcnd, hna, h2⟩
+          · exact ⟨r, h1, Value.equals_refl _⟩
+          · rcases h2 with ⟨_, ho⟩ | ⟨_, ho⟩
+            · subst ho; cases hsome
+            · subst ho
+              have heq := equalsList_asList w r hwr
+              have hcl := canonList_asList w hcw
+              have hcrl := canonList_asList r hcr
+              have hr : r = .list ((asList (some r)).getD []) := by
+                apply asList_eq_of_nonempty
+                cases he : emptyOrAbsent (asList (some r)) with
+                | false => rfl
+                | true =>
+                  exfalso
+                  have hrl : (asList (some r)).getD [] = [] := by
+                    cases r <;> simp_all [asList, emptyOrAbsent]
+                  rw [hrl] at heq
+                  have hll : (asList (some w)).getD [] = [] := by
+                    cases hx : (asList (some w)).getD [] with
+                    | nil => rfl
+                    | cons x xs => rw [hx] at heq; simp [Value.equalsList] at heq
+                  rw [emptyOrAbsent_of_getD_nil _ hll, he] at hcnd
+                  cases hcnd
+              generalize (asList (some w)).getD [] = ll at hil heq hcl
+              generalize (asList (some r)).getD [] = rl at hir heq hcrl hr
+              obtain ⟨Z, rfl, rfl, hZ⟩ := equalsList_unzip ll rl heq
+              obtain ⟨newr, er, hr2, hr3, hr4, hr5⟩ := mn_indexPEs_spec s t false _ [] [] rpes obsR hir
+              simp only [List.reverse_nil, List.nil_append] at er
+              subst er
+              obtain ⟨hr4a, _⟩ := hr4 rfl
+              obtain ⟨newl, el, hl2, hl3, _, hl5⟩ := mn_indexPEs_spec s t true _ [] [] lpes obsL hil
+              simp only [List.reverse_nil, List.nil_append] at el
+              subst el
+              have hlp := pes_eq_map s t lpes hl3
+              have hrp := pes_eq_map s t rpes hr3
+              rw [hl2, List.map_map] at hlp
+              rw [hr2, List.map_map] at hrp
+              have hzl : ∀ z ∈ Z, listItemToPE s t z.1 = .ok (peOf' s t z.1) := by
+                intro z hz
+                have : (peOf' s t z.1, z.1) ∈ lpes := by rw [hlp]; exact List.mem_map.2 ⟨z, hz, rfl⟩
+                exact hl3 _ this
+              have hzr : ∀ z ∈ Z, listItemToPE s t z.2 = .ok (peOf' s t z.2) ∧ (peOf' s t z.2, z.2) ∈ rpes := by
+                intro z hz
+                have : (peOf' s t z.2, z.2) ∈ rpes := by rw [hrp]; exact List.mem_map.2 ⟨z, hz, rfl⟩
+                exact ⟨hr3 _ this, this⟩
+              have hzeq : ∀ z ∈ Z, PE.equals (peOf' s t z.1) (peOf' s t z.2) = true := by
+                intro z hz
+                have hrel := listItemToPE_rel s t _ _ (hzl z hz)
+                exact identity_equals_congr s t z.1 z.2 _ _ (hZ z hz)
+                  (identity_of_listItemToPE s t _ _ hrel (hzl z hz))
+                  (identity_of_listItemToPE s t _ _ hrel (hzr z hz).1)
+              have hgetR : ∀ z ∈ Z, pemGet (peOf' s t z.1) obsR = some z.2 := by
+                intro z hz
+                rw [pemGet_congr (hzeq z hz)]
+                exact hr4a _ (hzr z hz).2
+              have hrs : rpes.map (·.1) = Z.map (fun z => peOf' s t z.2) := by
+                rw [hrp, List.map_map]; rfl
+              rw [hrs, hlp] at hloop
+              obtain ⟨hres', hall⟩ := mergeLoop_aligned _ obsL obsR (fun z : Value × Value => peOf' s t z.1)
+                (fun z => peOf' s t z.2) (fun z => z.1)
+                (fun pe lc rc o ho => mergeNode_isSome s _ _ _ _ _ ho) Z _ _ _ _ _ hzeq
+                (by simp) hloop
+              simp only [List.reverse_nil, List.nil_append] at hres'
+              refine ⟨_, rfl, ?_⟩
+              rw [hr, hres']
+              simp only [Value.equals]
+              apply equalsList_map
+              intro z hz
+              obtain ⟨v, hv⟩ := hall z hz
+              simp only [hv, resVal]
+              rw [hgetR z hz] at hv
+              obtain ⟨o', ho', he'⟩ := ih _ z.2 _ _ (by
+                intro w' hw'
+                rcases hl5 _ w' hw' with h0 | h0 | ⟨p, hp, hpe, hpw⟩
+                · exact .inl h0
+                · simp [pemGet] at h0
+                · right
+                  rw [hlp] at hp
+                  obtain ⟨z', hz', rfl⟩ := List.mem_map.1 hp
+                  subst hpw
+                  have h1 : PE.equals (peOf' s t z'.2) (peOf' s t z.2) = true :=
+                    PE.equals_trans (PE.equals_symm_of (hzeq z' hz')) (PE.equals_trans hpe (hzeq z hz))
+                  have h2 := hr4a _ (hzr z' hz').2
+                  rw [pemGet_congr h1, hr4a _ (hzr z hz).2] at h2
+                  simp only [Option.some.injEq] at h2
+                  refine ⟨canonList_mem _ hcl _ (List.mem_map.2 ⟨z', hz', rfl⟩), ?_⟩
+                  rw [h2]; exact hZ z' hz') (canonList_mem _ hcrl _ (List.mem_map.2 ⟨z, hz, rfl⟩)) hv
+              cases ho'
+              exact he'
+        | map t =>
+          rcases mergeHandle_map s _ _ _ _ t hk o hh with h1 | ⟨outm, hf, hcnd, hna, h2⟩
+          · exact ⟨r, h1, Value.equals_refl _⟩
+          · rcases h2 with ⟨_, ho⟩ | ⟨_, ho⟩
+            · subst ho; cases hsome
+            · subst ho
+              have heq := equalsFields_asMap w r hwr
+              obtain ⟨hascl, hcfl⟩ := canon_asMap w hcw
+              obtain ⟨hascr, hcfr⟩ := canon_asMap r hcr
+              have hr : r = .map ((asMap (some r)).getD []) := by
+                apply asMap_eq_of_nonempty
+                cases he : emptyOrAbsent (asMap (some r)) with
+                | false => rfl
+                | true =>
+                  exfalso
+                  have hrl : (asMap (some r)).getD [] = [] := by
+                    cases r <;> simp_all [asMap, emptyOrAbsent]
+                  rw [hrl] at heq
+                  have hll : (asMap (some w)).getD [] = [] := by
+                    cases hx : (asMap (some w)).getD [] with
+                    | nil => rfl
+                    | cons x xs => rw [hx] at heq; simp [Value.equalsFields] at heq
+                  rw [emptyOrAbsent_of_getD_nil _ hll, he] at hcnd
+                  cases hcnd
+              generalize (asMap (some w)).getD [] = lf at hf heq hascl hcfl
+              generalize (asMap (some r)).getD [] = rf at hf heq hascr hcfr hr
+              obtain ⟨Z, rfl, rfl, hZ⟩ := equalsFields_unzip lf rf heq
+              rw [zipKeys_zip] at hf
+              obtain ⟨_, _, h3⟩ := foldl_mergeMapStep_spec _ t _ _ _ _ _ hf
+              have hlookl : ∀ z ∈ Z, lookupField z.1 (Z.map zl) = some z.2.1 := fun z hz =>
+                lookupField_of_mem_asc hascl (List.mem_map.2 ⟨z, hz, rfl⟩)
+              have hlookr : ∀ z ∈ Z, lookupField z.1 (Z.map zr) = some z.2.2 := fun z hz =>
+                lookupField_of_mem_asc hascr (List.mem_map.2 ⟨z, hz, rfl⟩)
+              have hrec : ∀ z ∈ Z, ∃ v, mergeNode s n (some z.2.1) (some z.2.2) (fieldType t z.1) = .ok (some v) ∧
+                  Value.equals v z.2.2 = true := by
+                intro z hz
+                obtain ⟨o', ho', _⟩ := h3 z.1 (List.mem_map.2 ⟨z, hz, rfl⟩)
+                rw [hlookl z hz, hlookr z hz] at ho'
+                obtain ⟨v, rfl, hv⟩ := ih _ z.2.2 _ _ (by
+                  intro w' hw'
+                  cases hw'
+                  exact .inr ⟨canonFields_mem _ hcfl _ (List.mem_map.2 ⟨z, hz, rfl⟩), hZ z hz⟩)
+                  (canonFields_mem _ hcfr _ (List.mem_map.2 ⟨z, hz, rfl⟩)) ho'
+                exact ⟨v, ho', hv⟩
+              let g : ZEntry → Value := fun z => resVal (mergeNode s n (some z.2.1) (some z.2.2) (fieldType t z.1))
+              have hcopy := mergeMapStep_foldl_copy (mergeNode s n) t (Z.map fun z => (z.1, g z)) (Z.map zl) (Z.map zr) (by
+                intro p k v rest hm
+                have hmem : (k, v) ∈ Z.map fun z => (z.1, g z) := by rw [hm]; simp
+                obtain ⟨z, hz, he⟩ := List.mem_map.1 hmem
+                simp only [Prod.mk.injEq] at he
+                obtain ⟨rfl, rfl⟩ := he
+                obtain ⟨v, hv, _⟩ := hrec z hz
+                rw [hlookl z hz, hlookr z hz]
+                simp only [g, hv, resVal]) (by
+                have := keysAsc_pairwise _ hascl
+                rw [List.pairwise_map] at this ⊢
+                exact this) _ [] rfl
+              simp only [List.map_map] at hcopy
+              rw [show ((fun x : String × Value => x.1) ∘ fun z : ZEntry => (z.1, g z)) = (fun z : ZEntry => z.1) from rfl] at hcopy
+              rw [hcopy] at hf
+              cases hf
+              refine ⟨_, rfl, ?_⟩
+              rw [hr]
+              simp only [Value.equals]
+              apply equalsFields_map (fun z : ZEntry => z.1) g (fun z => z.2.2)
+              intro z hz
+              obtain ⟨v, hv, he⟩ := hrec z hz
+              simp only [g, hv, resVal]
+              exact he
+
+/-! ### the hypothesis of the list case, weakened: present key fields are canonical -/
+
+/-- the key fields an item of a keyed list carries are canonical values (scalars are) -/
+def itemKeysCanon (keys : List String) : Value → Bool
+  | .map m => keys.all fun k => match lookupField k m with | some v => canon v | none => true
+  | _ => true
+
+theorem itemKeysCanon_lookup (keys : List String) (m : List (String × Value)) (k : String) (v : Value)
+    (h : itemKeysCanon keys (.map m) = true) (hk : k ∈ keys) (hv : lookupField k m = some v) :
+    canon v = true := by
+  simp only [itemKeysCanon, List.all_eq_true] at h
+  have := h k hk
+  rw [hv] at this
+  exact this
+
+theorem itemKeysCanon_of_scalar (keys : List String) (v : Value) (h : itemKeysScalar keys v = true) :
+    itemKeysCanon keys v = true := by
+  cases v with
+  | map m =>
+    simp only [itemKeysScalar, itemKeysCanon, List.all_eq_true] at h ⊢
+    intro k hk
+    have := h k hk
+    cases hw : lookupField k m with
+    | none => rfl
+    | some w => rw [hw] at this; exact canon_of_isScalar w this
+  | _ => rfl
+
+theorem itemKeysCanon_of_canon (keys : List String) (v : Value) (h : canon v = true) :
+    itemKeysCanon keys v = true := by
+  cases v with
+  | map m =>
+    simp only [canon, Bool.and_eq_true] at h
+    simp only [itemKeysCanon, List.all_eq_true]
+    intro k hk
+    split
+    · next w hw => exact canonFields_mem m h.2 (k, w) (mn_lookupField_mem k w m hw)
+    · rfl
+  | _ => rfl
+
+mutual
+/-- in every keyed list visited by the typed walkers (atomic nodes are leaves), the key fields the items
+carry are canonical values: implied by `keysScalar` (whatever the value) and by `canon` (whatever the type) -/
+def keysCanon (s : Schema) (tr : TypeRef) : Value → Bool
+  | .list l =>
+    match resolveKind s tr (some (.list l)) with
+    | some (.list t) => t.rel == "atomic" || keysCanonItems s t l
+    | _ => true
+  | .map m =>
+    match resolveKind s tr (some (.map m)) with
+    | some (.map t) => t.rel == "atomic" || keysCanonFields s t m
+    | _ => true
+  | _ => true
+def keysCanonItems (s : Schema) (t : ListT) : List Value → Bool
+  | [] => true
+  | v :: vs => itemKeysCanon t.keys v && keysCanon s t.elementType v && keysCanonItems s t vs
+def keysCanonFields (s : Schema) (t : MapT) : List (String × Value) → Bool
+  | [] => true
+  | (k, v) :: rest => keysCanon s (fieldType t k) v && keysCanonFields s t rest
+end
+
+theorem keysCanonItems_mem (s : Schema) (t : ListT) :
+    ∀ (l : List Value), keysCanonItems s t l = true →
+      ∀ c ∈ l, itemKeysCanon t.keys c = true ∧ keysCanon s t.elementType c = true
+  | [], _, c, hc => by cases hc
+  | v :: vs, h, c, hc => by
+    simp only [keysCanonItems, Bool.and_eq_true] at h
+    rcases List.mem_cons.1 hc with rfl | hc
+    · exact h.1
+    · exact keysCanonItems_mem s t vs h.2 c hc
+
+theorem keysCanonFields_mem (s : Schema) (t : MapT) :
+    ∀ (m : List (String × Value)), keysCanonFields s t m = true →
+      ∀ x ∈ m, keysCanon s (fieldType t x.1) x.2 = true
+  | [], _, c, hc => by cases hc
+  | (k, v) :: vs, h, c, hc => by
+    simp only [keysCanonFields, Bool.and_eq_true] at h
+    rcases List.mem_cons.1 hc with rfl | hc
+    · exact h.1
+    · exact keysCanonFields_mem s t vs h.2 c hc
+
+mutual
+/-- scalar key fields are canonical key fields -/
+theorem keysCanon_of_scalar (s : Schema) : ∀ (v : Value) (tr : TypeRef), keysScalar s tr v = true → keysCanon s tr v = true
+  | .list l, tr => by
+    simp only [keysScalar, keysCanon]
+    split
+    · next t _ =>
+      simp only [Bool.or_eq_true]
+      rintro (h | h)
+      · exact .inl h
+      · exact .inr (keysCanonItems_of_scalar s l t h)
+    · intro _; rfl
+  | .map m, tr => by
+    simp only [keysScalar, keysCanon]
+    split
+    · next t _ =>
+      simp only [Bool.or_eq_true]
+      rintro (h | h)
+      · exact .inl h
+      · exact .inr (keysCanonFields_of_scalar s m t h)
+    · intro _; rfl
+  | .null, _ => fun _ => rfl
+  | .bool _, _ => fun _ => rfl
+  | .int _, _ => fun _ => rfl
+  | .float _ _, _ => fun _ => rfl
+  | .str _, _ => fun _ => rfl
+theorem keysCanonItems_of_scalar (s : Schema) : ∀ (l : List Value) (t : ListT),
+    keysScalarItems s t l = true → keysCanonItems s t l = true
+  | [], _ => fun _ => rfl
+  | v :: vs, t => by
+    simp only [keysScalarItems, keysCanonItems, Bool.and_eq_true]
+    rintro ⟨⟨h1, h2⟩, h3⟩
+    exact ⟨⟨itemKeysCanon_of_scalar _ _ h1, keysCanon_of_scalar s v _ h2⟩, keysCanonItems_of_scalar s vs t h3⟩
+theorem keysCanonFields_of_scalar (s : Schema) : ∀ (m : List (String × Value)) (t : MapT),
+    keysScalarFields s t m = true → keysCanonFields s t m = true
+  | [], _ => fun _ => rfl
+  | (k, v) :: rest, t => by
+    simp only [keysScalarFields, keysCanonFields, Bool.and_eq_true]
+    rintro ⟨h1, h2⟩
+    exact ⟨keysCanon_of_scalar s v _ h1, keysCanonFields_of_scalar s rest t h2⟩
+end
+
+mutual
+/-- canonical values carry canonical key fields, at every type -/
+theorem keysCanon_of_canon (s : Schema) : ∀ (v : Value) (tr : TypeRef), canon v = true → keysCanon s tr v = true
+  | .list l, tr => by
+    intro h
+    simp only [canon] at h
+    simp only [keysCanon]
+    split
+    · next t _ => simp only [Bool.or_eq_true]; exact .inr (keysCanonItems_of_canon s l t h)
+    · rfl
+  | .map m, tr => by
+    intro h
+    simp only [canon, Bool.and_eq_true] at h
+    simp only [keysCanon]
+    split
+    · next t _ => simp only [Bool.or_eq_true]; exact .inr (keysCanonFields_of_canon s m t h.2)
+    · rfl
+  | .null, _ => fun _ => rfl
+  | .bool _, _ => fun _ => rfl
+  | .int _, _ => fun _ => rfl
+  | .float _ _, _ => fun _ => rfl
+  | .str _, _ => fun _ => rfl
+theorem keysCanonItems_of_canon (s : Schema) : ∀ (l : List Value) (t : ListT),
+    canonList l = true → keysCanonItems s t l = true
+  | [], _ => fun _ => rfl
+  | v :: vs, t => by
+    simp only [canonList, keysCanonItems, Bool.and_eq_true]
+    rintro ⟨h1, h2⟩
+    exact ⟨⟨itemKeysCanon_of_canon _ _ h1, keysCanon_of_canon s v _ h1⟩, keysCanonItems_of_canon s vs t h2⟩
+theorem keysCanonFields_of_canon (s : Schema) : ∀ (m : List (String × Value)) (t : MapT),
+    canonFields m = true → keysCanonFields s t m = true
+  | [], _ => fun _ => rfl
+  | (k, v) :: rest, t => by
+    simp only [canonFields, keysCanonFields, Bool.and_eq_true]
+    rintro ⟨h1, h2⟩
+    exact ⟨keysCanon_of_canon s v _ h1, keysCanonFields_of_canon s rest t h2⟩
+end
+
+theorem keysCanon_null (s : Schema) (tr : TypeRef) : keysCanon s tr .null = true := by
+  simp [keysCanon]
+
+/-- an item merged with nothing keeps its identity (its key fields being canonical values) -/
+theorem merge_identity_left_canon (s : Schema) (t : ListT) (fuel : Nat) (w o : Value) (pw : PE)
+    (hid : Conf.identity s t w = some pw) (hks : itemKeysCanon t.keys w = true)
     (h : mergeNode s fuel (some w) none t.elementType = .ok (some o)) : Conf.identity s t o = some pw := by
   cases hk : t.keys.isEmpty with
   | true =>
@@ -968,7 +1687,7 @@ theorem merge_identity_left (s : Schema) (t : ListT) (fuel : Nat) (w o : Value) 
             simp only [lookupField] at l1 l2
             cases hw : lookupField k wm with
             | some wk =>
-              have hsc := itemKeysScalar_lookup t.keys wm k wk hks hkm hw
+              have hsc := itemKeysCanon_lookup t.keys wm k wk hks hkm hw
               rw [hw] at l1 l2
               cases ho : lookupField k outm with
               | none =>
@@ -976,7 +1695,7 @@ theorem merge_identity_left (s : Schema) (t : ListT) (fuel : Nat) (w o : Value) 
                 · cases h'
                 · have := mergeNode_isSome s _ _ _ _ _ h'; cases this
               | some v' =>
-                have := merge_scalar_left s n wk _ _ hsc (l1 v' ho)
+                have := merge_canon_left s n wk _ _ hsc (l1 v' ho)
                 cases this
                 rw [keyVal_of_lookup_some s t _ k _ ho, keyVal_of_lookup_some s t _ k _ hw]
             | none =>
@@ -987,18 +1706,25 @@ theorem merge_identity_left (s : Schema) (t : ListT) (fuel : Nat) (w o : Value) 
           rw [this]
 
 
+/-- an item merged with nothing keeps its identity -/
+theorem merge_identity_left (s : Schema) (t : ListT) (fuel : Nat) (w o : Value) (pw : PE)
+    (hid : Conf.identity s t w = some pw) (hks : itemKeysScalar t.keys w = true)
+    (h : mergeNode s fuel (some w) none t.elementType = .ok (some o)) : Conf.identity s t o = some pw :=
+  merge_identity_left_canon s t fuel w o pw hid (itemKeysCanon_of_scalar _ _ hks) h
+
 theorem asMap_getD_lookup (lc : Option Value) (k : String) (wk : Value)
     (h : lookupField k ((asMap lc).getD []) = some wk) : lc = some (.map ((asMap lc).getD [])) := by
   cases lc with
   | none => simp [asMap, lookupField] at h
   | some w => cases w <;> simp_all [asMap, lookupField]
 
-/-- an item merged under a right item keeps the right item's identity -/
-theorem merge_identity_right (s : Schema) (t : ListT) (fuel : Nat) (lc : Option Value) (it o : Value) (rpe : PE)
+/-- an item merged under a right item keeps the right item's identity (the key fields of both being
+canonical values) -/
+theorem merge_identity_right_canon (s : Schema) (t : ListT) (fuel : Nat) (lc : Option Value) (it o : Value) (rpe : PE)
     (hid : Conf.identity s t it = some rpe) (hv : validateV s false t.elementType it = .ok ())
-    (hks : itemKeysScalar t.keys it = true)
+    (hks : itemKeysCanon t.keys it = true)
     (hlc : ∀ w, lc = some w → w = .null ∨
-      ∃ pw, Conf.identity s t w = some pw ∧ PE.equals pw rpe = true ∧ itemKeysScalar t.keys w = true)
+      ∃ pw, Conf.identity s t w = some pw ∧ PE.equals pw rpe = true ∧ itemKeysCanon t.keys w = true)
     (h : mergeNode s fuel lc (some it) t.elementType = .ok (some o)) :
     ∃ po, Conf.identity s t o = some po ∧ PE.equals po rpe = true := by
   cases hk : t.keys.isEmpty with
@@ -1032,8 +1758,21 @@ theorem merge_identity_right (s : Schema) (t : ListT) (fuel : Nat) (lc : Option 
             obtain ⟨l1, l2⟩ := mergedMap_lookup _ mt _ im outm hf k
             cases hi : lookupField k im with
             | some v =>
-              have hsc := itemKeysScalar_lookup t.keys im k v hks hkm hi
-              have hvv := validateFields_mem s false mt im hv (k, v) (mn_lookupField_mem k v im hi)
+              have hsc := itemKeysCanon_lookup t.keys im k v hks hkm hi
+              have hst : StableLeft (lookupField k lf) v := by
+                intro wk hw
+                have hlc' := asMap_getD_lookup lc k wk (by rw [hlf]; exact hw)
+                rw [hlf] at hlc'
+                rcases hlc _ hlc' with h' | ⟨pw, hpw, hpe, hwks⟩
+                · cases h'
+                · right
+                  refine ⟨itemKeysCanon_lookup t.keys _ k wk hwks hkm hw, ?_⟩
+                  obtain ⟨v1, v2, e1, e2, he⟩ := (identity_keyed_equals s t _ im hk pw rpe hpw hid).1 hpe k hkm
+                  rw [keyVal_of_lookup_some s t _ k _ hw] at e1
+                  rw [keyVal_of_lookup_some s t _ k _ hi] at e2
+                  simp only [Option.some.injEq, Prod.mk.injEq, true_and] at e1 e2
+                  subst e1 e2
+                  exact he
               rw [hi] at l1 l2
               cases ho : lookupField k outm with
               | none =>
@@ -1041,10 +1780,9 @@ theorem merge_identity_right (s : Schema) (t : ListT) (fuel : Nat) (lc : Option 
                 · cases h'
                 · have := mergeNode_isSome s _ _ _ _ _ h'; cases this
               | some v' =>
-                have := merge_scalar_right s n _ v _ _ hvv hsc (l1 v' ho)
-                cases this
-                exact ⟨v, v, keyVal_of_lookup_some s t _ k _ ho, keyVal_of_lookup_some s t _ k _ hi,
-                  Value.equals_refl _⟩
+                obtain ⟨o', ho', he⟩ := merge_canon_equal s n _ v _ _ hst hsc (l1 v' ho)
+                cases ho'
+                exact ⟨v', v, keyVal_of_lookup_some s t _ k _ ho, keyVal_of_lookup_some s t _ k _ hi, he⟩
             | none =>
               rw [hi] at l1 l2
               cases hkv : keyVal s t im k with
@@ -1067,7 +1805,7 @@ theorem merge_identity_right (s : Schema) (t : ListT) (fuel : Nat) (lc : Option 
                   rw [hlf] at hlc'
                   rcases hlc _ hlc' with h' | ⟨pw, hpw, hpe, hwks⟩
                   · cases h'
-                  · have hsc := itemKeysScalar_lookup t.keys _ ek wk hwks hkm hw
+                  · have hsc := itemKeysCanon_lookup t.keys _ ek wk hwks hkm hw
                     obtain ⟨v1, v2, e1, e2, he⟩ := (identity_keyed_equals s t _ im hk pw rpe hpw hid).1 hpe ek hkm
                     rw [keyVal_of_lookup_some s t _ ek _ hw] at e1
                     rw [hkv] at e2
@@ -1080,7 +1818,7 @@ theorem merge_identity_right (s : Schema) (t : ListT) (fuel : Nat) (lc : Option 
                       · cases h'
                       · have := mergeNode_isSome s _ _ _ _ _ h'; cases this
                     | some v' =>
-                      have := merge_scalar_left s n wk _ _ hsc (l1 v' ho)
+                      have := merge_canon_left s n wk _ _ hsc (l1 v' ho)
                       cases this
                       exact ⟨wk, d, keyVal_of_lookup_some s t _ ek _ ho, rfl, he⟩
           have hsome : ∀ k ∈ t.keys, (keyVal s t outm k).isSome = true := by
@@ -1091,6 +1829,17 @@ theorem merge_identity_right (s : Schema) (t : ListT) (fuel : Nat) (lc : Option 
           exact (identity_keyed_equals s t outm im hk _ rpe
             ((identity_keyed_some s t outm hk _).2 ⟨hsome, rfl⟩) hid).2 key
 
+
+/-- an item merged under a right item keeps the right item's identity -/
+theorem merge_identity_right (s : Schema) (t : ListT) (fuel : Nat) (lc : Option Value) (it o : Value) (rpe : PE)
+    (hid : Conf.identity s t it = some rpe) (hv : validateV s false t.elementType it = .ok ())
+    (hks : itemKeysScalar t.keys it = true)
+    (hlc : ∀ w, lc = some w → w = .null ∨
+      ∃ pw, Conf.identity s t w = some pw ∧ PE.equals pw rpe = true ∧ itemKeysScalar t.keys w = true)
+    (h : mergeNode s fuel lc (some it) t.elementType = .ok (some o)) :
+    ∃ po, Conf.identity s t o = some po ∧ PE.equals po rpe = true :=
+  merge_identity_right_canon s t fuel lc it o rpe hid hv (itemKeysCanon_of_scalar _ _ hks)
+    (fun w hw => (hlc w hw).imp id fun ⟨pw, h1, h2, h3⟩ => ⟨pw, h1, h2, itemKeysCanon_of_scalar _ _ h3⟩) h
 
 def PE.isField : PE → Bool | .field _ => true | _ => false
 def PE.isIndex : PE → Bool | .index _ => true | _ => false
@@ -1234,6 +1983,22 @@ theorem keysScalar_list_items (s : Schema) (tr : TypeRef) (a : Atom) (lt : ListT
   simp only [Bool.or_eq_true, beq_iff_eq, hna, false_or] at h
   exact keysScalarItems_mem s lt l h
 
+theorem keysCanon_map_child (s : Schema) (tr : TypeRef) (a : Atom) (mt : MapT) (m : List (String × Value))
+    (hres : s.resolve tr = some a) (hmap : a.map = some mt) (hna : mt.rel ≠ "atomic")
+    (h : keysCanon s tr (.map m) = true) (k : String) (w : Value) (hl : lookupField k m = some w) :
+    keysCanon s (fieldType mt k) w = true := by
+  rw [keysCanon, resolveKind_map s tr a mt m hres hmap] at h
+  simp only [Bool.or_eq_true, beq_iff_eq, hna, false_or] at h
+  exact keysCanonFields_mem s mt m h (k, w) (mn_lookupField_mem k w m hl)
+
+theorem keysCanon_list_items (s : Schema) (tr : TypeRef) (a : Atom) (lt : ListT) (l : List Value)
+    (hres : s.resolve tr = some a) (hlist : a.list = some lt) (hna : lt.rel ≠ "atomic")
+    (h : keysCanon s tr (.list l) = true) :
+    ∀ c ∈ l, itemKeysCanon lt.keys c = true ∧ keysCanon s lt.elementType c = true := by
+  rw [keysCanon, resolveKind_list s tr a lt l hres hlist] at h
+  simp only [Bool.or_eq_true, beq_iff_eq, hna, false_or] at h
+  exact keysCanonItems_mem s lt l h
+
 /-- the map case: the entry of a key of the right operand is, in the result, the merge of that entry -/
 theorem right_wins_child_map (s : Schema) (tr : TypeRef) (lo : Option Value) (rf : List (String × Value))
     (out : Value) (fuel : Nat) (a : Atom) (mt : MapT) (k : String) (v' : Value)
@@ -1275,27 +2040,21 @@ theorem asList_getD_mem (lo : Option Value) (w : Value) (h : w ∈ (asList lo).g
   | none => simp [asList] at h
   | some v => cases v <;> simp_all [asList]
 
-theorem identity_of_listItemToPE (s : Schema) (t : ListT) (v : Value) (pe : PE) (hrel : t.rel = "associative")
-    (h : listItemToPE s t v = .ok pe) : Conf.identity s t v = some pe := by
-  rw [listItemToPE_eq s t v hrel] at h
-  split at h
-  · next id hid => cases h; exact hid
-  · cases h
-
 /-- the list case: the item a key or value designates in the right operand is, in the result, designated by
-the same element and is the merge of that item -/
-theorem right_wins_child_list (s : Schema) (tr : TypeRef) (lo : Option Value) (rl : List Value)
+the same element and is the merge of that item with nothing, an explicit null or an item of the left list
+(the key fields carried by the items of both lists being canonical values) -/
+theorem right_wins_child_list_core (s : Schema) (tr : TypeRef) (lo : Option Value) (rl : List Value)
     (out : Value) (fuel : Nat) (a : Atom) (lt : ListT) (pe : PE) (v' : Value)
     (hres : s.resolve tr = some a) (hlist : a.list = some lt)
     (hr : validateV s false tr (.list rl) = .ok ())
-    (hksl : ∀ l, lo = some l → keysScalar s tr l = true) (hksr : keysScalar s tr (.list rl) = true)
+    (hkl : lt.rel ≠ "atomic" → ∀ c ∈ (asList lo).getD [], itemKeysCanon lt.keys c = true)
+    (hkr : lt.rel ≠ "atomic" → ∀ c ∈ rl, itemKeysCanon lt.keys c = true)
     (hm : mergeNode s fuel lo (some (.list rl)) tr = .ok (some out))
     (hitem : Nodes.itemAt s lt pe rl = some v') :
     out = .list rl ∨ ∃ res o' n lo', out = .list res ∧ Nodes.itemAt s lt pe res = some o' ∧
       validateV s false lt.elementType v' = .ok () ∧
       mergeNode s n lo' (some v') lt.elementType = .ok (some o') ∧
-      (∀ w, lo' = some w → keysScalar s lt.elementType w = true) ∧
-      keysScalar s lt.elementType v' = true := by
+      (∀ w, lo' = some w → w = .null ∨ w ∈ (asList lo).getD []) ∧ v' ∈ rl ∧ lt.rel ≠ "atomic" := by
   obtain ⟨n, a', _, hres', hh⟩ := mergeNode_some_right s fuel _ _ _ _ hm
   rw [hres] at hres'; cases hres'
   rw [validateV_list, hres] at hr
@@ -1319,12 +2078,10 @@ theorem right_wins_child_list (s : Schema) (tr : TypeRef) (lo : Option Value) (r
       subst el
       obtain ⟨hv'mem, hrel, hni, id0, hid0, he0⟩ := itemAt_some s lt pe rl v' hitem
       have hvalid := validateItems_assoc s false lt hrel rl [] 0 hr
-      have hkr := keysScalar_list_items s tr a lt rl hres hlist hna hksr
-      have hkl : ∀ c ∈ ll, itemKeysScalar lt.keys c = true ∧ keysScalar s lt.elementType c = true := by
+      have hkr := hkr hna
+      have hkl : ∀ c ∈ ll, itemKeysCanon lt.keys c = true := by
         intro c hcm
-        have hlo := asList_getD_mem lo c (by rw [hll]; exact hcm)
-        rw [hll] at hlo
-        exact keysScalar_list_items s tr a lt ll hres hlist hna (hksl _ hlo) c hcm
+        exact hkl hna c (by rw [hll]; exact hcm)
       have hrmem : ∀ p ∈ rpes, p.2 ∈ rl := fun p hp => by rw [← hr2]; exact List.mem_map_of_mem hp
       have hlmem : ∀ p ∈ lpes, p.2 ∈ ll := fun p hp => by rw [← hl2]; exact List.mem_map_of_mem hp
       have hR : ∀ (pe1 : PE) (p1 : PE × Value) (o1 : Value), p1 ∈ rpes → PE.equals pe1 p1.1 = true →
@@ -1334,9 +2091,9 @@ theorem right_wins_child_list (s : Schema) (tr : TypeRef) (lo : Option Value) (r
         have hget : pemGet pe1 obsR = some p1.2 := by rw [pemGet_congr he1]; exact hr4a p1 hp1
         refine ⟨hget, ?_⟩
         rw [hget] at hmerge
-        refine merge_identity_right s lt n (pemGet pe1 obsL) p1.2 o1 p1.1
+        refine merge_identity_right_canon s lt n (pemGet pe1 obsL) p1.2 o1 p1.1
           (identity_of_listItemToPE s lt _ _ hrel (hr3 p1 hp1)) (hvalid _ (hrmem p1 hp1)).2
-          (hkr _ (hrmem p1 hp1)).1 ?_ hmerge
+          (hkr _ (hrmem p1 hp1)) ?_ hmerge
         intro w hw
         rcases hl5 pe1 w hw with h | h | ⟨p, hp, hpe, hpw⟩
         · exact .inl h
@@ -1344,7 +2101,7 @@ theorem right_wins_child_list (s : Schema) (tr : TypeRef) (lo : Option Value) (r
         · right
           subst hpw
           exact ⟨p.1, identity_of_listItemToPE s lt _ _ hrel (hl3 p hp), PE.equals_trans hpe he1,
-            (hkl _ (hlmem p hp)).1⟩
+            hkl _ (hlmem p hp)⟩
       obtain ⟨m1, _, m3, _⟩ := mergeLoop_spec _ _ _ _ _ _ _ _ _ _ hloop
       -- the designated right item and its element
       obtain ⟨p0, hp0, hp0v⟩ : ∃ p0 ∈ rpes, p0.2 = v' := by
@@ -1370,8 +2127,8 @@ theorem right_wins_child_list (s : Schema) (tr : TypeRef) (lo : Option Value) (r
         rcases m1 o' ho'mem with h | ⟨pe2, x2, hm2, hn2, hi2⟩ | ⟨pe3, rpe3, hm3, he3, hi3⟩
         · cases h
         · exfalso
-          have hid2 := merge_identity_left s lt n x2 o' pe2
-            (identity_of_listItemToPE s lt _ _ hrel (hl3 _ hm2)) (hkl _ (hlmem _ hm2)).1 hi2
+          have hid2 := merge_identity_left_canon s lt n x2 o' pe2
+            (identity_of_listItemToPE s lt _ _ hrel (hl3 _ hm2)) (hkl _ (hlmem _ hm2)) hi2
           rw [hido] at hid2
           cases hid2
           have : PE.equals ido id0 = true := PE.equals_trans heo (PE.equals_symm_of he0)
@@ -1388,12 +2145,42 @@ theorem right_wins_child_list (s : Schema) (tr : TypeRef) (lo : Option Value) (r
             rw [pemGet_congr h30, hget0] at this
             cases this; rfl
           rw [hget3, hv3] at hi3
-          refine ⟨res, o', n, pemGet pe3 obsL, rfl, hitem', (hvalid v' hv'mem).2, hi3, ?_, (hkr v' hv'mem).2⟩
+          refine ⟨res, o', n, pemGet pe3 obsL, rfl, hitem', (hvalid v' hv'mem).2, hi3, ?_, hv'mem, hna⟩
           intro w hw
           rcases hl5 pe3 w hw with h | h | ⟨p, hp, _, hpw⟩
-          · subst h; rfl
+          · exact .inl h
           · simp [pemGet] at h
-          · subst hpw; exact (hkl _ (hlmem p hp)).2
+          · subst hpw; exact .inr (hlmem p hp)
+
+/-- the list case: the item a key or value designates in the right operand is, in the result, designated by
+the same element and is the merge of that item -/
+theorem right_wins_child_list (s : Schema) (tr : TypeRef) (lo : Option Value) (rl : List Value)
+    (out : Value) (fuel : Nat) (a : Atom) (lt : ListT) (pe : PE) (v' : Value)
+    (hres : s.resolve tr = some a) (hlist : a.list = some lt)
+    (hr : validateV s false tr (.list rl) = .ok ())
+    (hksl : ∀ l, lo = some l → keysScalar s tr l = true) (hksr : keysScalar s tr (.list rl) = true)
+    (hm : mergeNode s fuel lo (some (.list rl)) tr = .ok (some out))
+    (hitem : Nodes.itemAt s lt pe rl = some v') :
+    out = .list rl ∨ ∃ res o' n lo', out = .list res ∧ Nodes.itemAt s lt pe res = some o' ∧
+      validateV s false lt.elementType v' = .ok () ∧
+      mergeNode s n lo' (some v') lt.elementType = .ok (some o') ∧
+      (∀ w, lo' = some w → keysScalar s lt.elementType w = true) ∧
+      keysScalar s lt.elementType v' = true := by
+  have hkl : lt.rel ≠ "atomic" → ∀ c ∈ (asList lo).getD [],
+      itemKeysScalar lt.keys c = true ∧ keysScalar s lt.elementType c = true := by
+    intro hna c hcm
+    have hlo := asList_getD_mem lo c hcm
+    exact keysScalar_list_items s tr a lt _ hres hlist hna (hksl _ hlo) c hcm
+  rcases right_wins_child_list_core s tr lo rl out fuel a lt pe v' hres hlist hr
+      (fun hna c hc => itemKeysCanon_of_scalar _ _ (hkl hna c hc).1)
+      (fun hna c hc => itemKeysCanon_of_scalar _ _ (keysScalar_list_items s tr a lt rl hres hlist hna hksr c hc).1)
+      hm hitem with h | ⟨res, o', n, lo', h1, h2, h3, h4, h5, h6, hna⟩
+  · exact .inl h
+  · refine .inr ⟨res, o', n, lo', h1, h2, h3, h4, ?_, (keysScalar_list_items s tr a lt rl hres hlist hna hksr v' h6).2⟩
+    intro w hw
+    rcases h5 w hw with rfl | hmem
+    · simp [keysScalar]
+    · exact (hkl hna w hmem).2
 
 /-! ### right wins -/
 
@@ -1404,13 +2191,13 @@ theorem asMap_getD_lookup' (lo : Option Value) (lf : List (String × Value)) (hl
 
 /-- right wins, against the independent resolver: along a path of field names (no further hypothesis),
 or along any path without positional (index) elements when the key fields carried by the items of the
-keyed lists of both operands are scalars -/
-theorem right_wins_aux (s : Schema) : ∀ (p : Path) (tr : TypeRef) (lo : Option Value) (r out : Value) (fuel : Nat)
+keyed lists of both operands are canonical values (`keysCanon`: implied by `keysScalar` and by `canon`) -/
+theorem right_wins_aux_canon (s : Schema) : ∀ (p : Path) (tr : TypeRef) (lo : Option Value) (r out : Value) (fuel : Nat)
     (x : Value),
     validateV s false tr r = .ok () →
     ((∀ pe ∈ p, PE.isField pe = true) ∨
-      ((∀ pe ∈ p, PE.isIndex pe = false) ∧ (∀ l, lo = some l → keysScalar s tr l = true) ∧
-        keysScalar s tr r = true)) →
+      ((∀ pe ∈ p, PE.isIndex pe = false) ∧ (∀ l, lo = some l → keysCanon s tr l = true) ∧
+        keysCanon s tr r = true)) →
     mergeNode s fuel lo (some r) tr = .ok (some out) →
     Nodes.valueAt s tr r p = some x →
     (Nodes.valueAt s tr out p).isSome = true ∧ (x.isScalar = true → Nodes.valueAt s tr out p = some x)
@@ -1423,7 +2210,7 @@ theorem right_wins_aux (s : Schema) : ∀ (p : Path) (tr : TypeRef) (lo : Option
     cases this; rfl
   | pe :: rest, tr, lo, r, out, fuel, x => by
     intro hr hyp hm hx
-    have ih := right_wins_aux s rest
+    have ih := right_wins_aux_canon s rest
     have hni : PE.isIndex pe = false := by
       rcases hyp with h | h
       · have := h pe List.mem_cons_self
@@ -1449,10 +2236,10 @@ theorem right_wins_aux (s : Schema) : ∀ (p : Path) (tr : TypeRef) (lo : Option
           rcases hyp with h | ⟨h1, h2, h3⟩
           · exact .inl fun pe' hpe' => h pe' (List.mem_cons_of_mem _ hpe')
           · refine .inr ⟨fun pe' hpe' => h1 pe' (List.mem_cons_of_mem _ hpe'), ?_,
-              keysScalar_map_child s tr a mt rf hres hmap hna h3 k v' hlook⟩
+              keysCanon_map_child s tr a mt rf hres hmap hna h3 k v' hlook⟩
             intro w hw
             have hlo' := asMap_getD_lookup' lo _ rfl k w hw
-            exact keysScalar_map_child s tr a mt _ hres hmap hna (h2 _ hlo') k w hw
+            exact keysCanon_map_child s tr a mt _ hres hmap hna (h2 _ hlo') k w hw
       · -- lists
         rcases hyp with h | ⟨h1, h2, h3⟩
         · exfalso
@@ -1461,8 +2248,15 @@ theorem right_wins_aux (s : Schema) : ∀ (p : Path) (tr : TypeRef) (lo : Option
           cases pe <;> simp [PE.isField] at hf
           rw [identity_not_field s lt v' id _ hid] at he
           cases he
-        · rcases right_wins_child_list s tr lo rl out fuel a lt pe v' hres hlist hr h2 h3 hm hitem with
-            rfl | ⟨res, o', n, lo', rfl, hitem', hv', hm', hk1, hk2⟩
+        · have hkll : lt.rel ≠ "atomic" → ∀ c ∈ (asList lo).getD [],
+              itemKeysCanon lt.keys c = true ∧ keysCanon s lt.elementType c = true := by
+            intro hna c hcm
+            have hlo := asList_getD_mem lo c hcm
+            exact keysCanon_list_items s tr a lt _ hres hlist hna (h2 _ hlo) c hcm
+          rcases right_wins_child_list_core s tr lo rl out fuel a lt pe v' hres hlist hr
+              (fun hna c hc => (hkll hna c hc).1)
+              (fun hna c hc => (keysCanon_list_items s tr a lt rl hres hlist hna h3 c hc).1) hm hitem with
+            rfl | ⟨res, o', n, lo', rfl, hitem', hv', hm', hk1, hk2, hna⟩
           · rw [Nodes.valueAt, hc]
             simp only []
             rw [hx]
@@ -1471,9 +2265,32 @@ theorem right_wins_aux (s : Schema) : ∀ (p : Path) (tr : TypeRef) (lo : Option
               rw [mn_childAt_list s tr a lt res pe hres hlist hni, hitem']; rfl
             rw [Nodes.valueAt, hc']
             simp only []
-            exact ih lt.elementType lo' v' o' n x hv'
-              (.inr ⟨fun pe' hpe' => h1 pe' (List.mem_cons_of_mem _ hpe'), hk1, hk2⟩) hm' hx
+            refine ih lt.elementType lo' v' o' n x hv'
+              (.inr ⟨fun pe' hpe' => h1 pe' (List.mem_cons_of_mem _ hpe'), ?_,
+                (keysCanon_list_items s tr a lt rl hres hlist hna h3 v' hk2).2⟩) hm' hx
+            intro w hw
+            rcases hk1 w hw with rfl | hmem
+            · exact keysCanon_null s _
+            · exact (hkll hna w hmem).2
     · cases hx
+
+/-- right wins, against the independent resolver: along a path of field names (no further hypothesis),
+or along any path without positional (index) elements when the key fields carried by the items of the
+keyed lists of both operands are scalars -/
+theorem right_wins_aux (s : Schema) : ∀ (p : Path) (tr : TypeRef) (lo : Option Value) (r out : Value) (fuel : Nat)
+    (x : Value),
+    validateV s false tr r = .ok () →
+    ((∀ pe ∈ p, PE.isField pe = true) ∨
+      ((∀ pe ∈ p, PE.isIndex pe = false) ∧ (∀ l, lo = some l → keysScalar s tr l = true) ∧
+        keysScalar s tr r = true)) →
+    mergeNode s fuel lo (some r) tr = .ok (some out) →
+    Nodes.valueAt s tr r p = some x →
+    (Nodes.valueAt s tr out p).isSome = true ∧ (x.isScalar = true → Nodes.valueAt s tr out p = some x) := by
+  intro p tr lo r out fuel x hr hyp hm hx
+  refine right_wins_aux_canon s p tr lo r out fuel x hr ?_ hm hx
+  rcases hyp with h | ⟨h1, h2, h3⟩
+  · exact .inl h
+  · exact .inr ⟨h1, fun l hl => keysCanon_of_scalar s l tr (h2 l hl), keysCanon_of_scalar s r tr h3⟩
 
 /-! ### a first apply -/
 
